@@ -26,6 +26,8 @@ import time
 import traceback
 import warnings
 
+from threading import Event, Lock, RLock, Timer
+
 import z3
 
 from vf import core, thx
@@ -52,6 +54,104 @@ H1_KEYS = {"A": "cancel-rearm-race", "B": "concurrent-update-orphan", "any": "ti
 METHODS = ("enter", "update", "exit", "__enter__", "__exit__")
 
 
+# ---------------------------------------------------------------------------------------
+# self-test classes (never part of the verdict on /repo): two repaired protocols that must be PROVED within
+# the bound and one broken variant that must be REFUTED with a replaying schedule -- exercised through exactly
+# the same lowering / BMC / replay path as oqupy.util.ProgressBar
+# ---------------------------------------------------------------------------------------
+class _SelfBase:
+    def __init__(self, max_value, title=None):
+        self._timer = None
+        self._file = sys.stdout
+        self.max_value = max_value
+        self.title = title
+        self._step = None
+
+    def _print_status(self):
+        self._file.write("\r%s of %s" % (self._step, self.max_value))
+
+
+class RefBar(_SelfBase):
+    """lock + closed flag"""
+
+    def __init__(self, max_value, title=None):
+        _SelfBase.__init__(self, max_value, title)
+        self._lock = Lock()
+        self._closed = False
+
+    def enter(self):
+        with self._lock:
+            self._timer = Timer(1.0, self._print_status)
+            self._timer.start()
+        return self
+
+    def exit(self):
+        with self._lock:
+            self._closed = True
+            self._timer.cancel()
+        self._print_status()
+
+    def update(self, step=None):
+        with self._lock:
+            if self._closed:
+                return
+            self._timer.cancel()
+            self._timer = Timer(1.0, self.update)
+            self._timer.start()
+        if step is not None:
+            self._step = step
+        self._print_status()
+
+
+class RefBarEvent(_SelfBase):
+    """RLock taken with acquire/try/finally/release + threading.Event as the closed flag"""
+
+    def __init__(self, max_value, title=None):
+        _SelfBase.__init__(self, max_value, title)
+        self._lock = RLock()
+        self._stop = Event()
+
+    def enter(self):
+        self._timer = Timer(1.0, self._print_status)
+        self._timer.start()
+        return self
+
+    def exit(self):
+        self._lock.acquire()
+        try:
+            self._stop.set()
+            timer = self._timer
+            if timer is not None:
+                timer.cancel()
+        finally:
+            self._lock.release()
+
+    def update(self, step=None):
+        self._lock.acquire()
+        try:
+            if not self._stop.is_set():
+                self._timer.cancel()
+                self._timer = Timer(1.0, self.update)
+                self._timer.start()
+        finally:
+            self._lock.release()
+        self._print_status()
+
+
+class MutNoFlag(RefBar):
+    """broken: lock but update() re-arms although exit() has run"""
+
+    def update(self, step=None):
+        with self._lock:
+            self._timer.cancel()
+            self._timer = Timer(1.0, self.update)
+            self._timer.start()
+        self._print_status()
+
+
+SELFTESTS = [("ref-lock-flag", "RefBar", "unsat"), ("ref-rlock-event", "RefBarEvent", "unsat"), ("mutant-no-flag", "MutNoFlag", "sat")]
+
+
 def _repo_rel(fn):
     f = fn.__code__.co_filename
     if f.startswith(core.REPO + "/"):
@@ -66,6 +166,7 @@ class Lowered:
     def __init__(self, util, clsname):
         self.util = util
         self.cls = getattr(util, clsname)
+        self.clsname = clsname
         self.ci = thx.ClassInfo(self.cls)
         self.cache = {}
         self.functions = []
@@ -150,10 +251,40 @@ def _qhash(*parts):
     return hashlib.sha1(repr(parts).encode()).hexdigest()[:12]
 
 
+def _normal_flow(prog):
+    """pcs reachable without taking an exception edge"""
+    seen, work = set(), [getattr(prog, "entry", 0)]
+    while work:
+        p = work.pop()
+        if p in (thx.END, thx.ABORT) or p is None or p in seen or p >= len(prog.code):
+            continue
+        seen.add(p)
+        i = prog.code[p]
+        if i.op == "jmp":
+            work.append(i.c)
+        elif i.op in ("cj", "nd"):
+            work += [i.c, p + 1]
+        else:
+            work.append(p + 1)
+    return seen
+
+
 def _prog_digest(main, cbs):
-    return ["caller: " + " ; ".join("%s%s" % (i.op, "" if i.op not in ("read", "write", "acq", "rel") else "(%s)" % (i.b if i.op == "read" else i.a))
-                                     for i in main.code if i.op in thx.EVENT_OPS and i.op != "fault")] + \
-           ["callback %s: " % n + " ; ".join(i.op for i in p.code if i.op in thx.EVENT_OPS) for n, p in sorted(cbs.items())]
+    def txt(prog):
+        nf = _normal_flow(prog)
+
+        def one(i):
+            if i.op == "read":
+                return "read(%s)" % i.b
+            if i.op in ("write", "acq", "rel"):
+                return "%s(%s)" % (i.op, i.a)
+            if i.op == "new":
+                return "new Timer->%s" % i.b
+            return i.op
+        a = " ; ".join(one(i) for k, i in enumerate(prog.code) if k in nf and i.op in thx.EVENT_OPS and i.op != "fault")
+        b = " ; ".join(one(i) for k, i in enumerate(prog.code) if k not in nf and i.op in thx.EVENT_OPS and i.op != "fault")
+        return a + ((" || exception handlers: " + b) if b else "")
+    return ["caller: " + txt(main)] + ["callback %s: %s" % (n, txt(p)) for n, p in sorted(cbs.items())]
 
 
 # ---------------------------------------------------------------------------------------
@@ -163,8 +294,8 @@ def h1_bounds(tier, ptype):
     if ptype != "bar":
         return [dict(u=2, T=2, Bcap=24)]
     if tier == "quick":
-        return [dict(u=1, T=4, Bcap=44)]
-    return [dict(u=1, T=4, Bcap=70), dict(u=2, T=4, Bcap=64)]
+        return [dict(u=1, T=4, Bcap=64), dict(u=2, T=4, Bcap=56)]
+    return [dict(u=1, T=5, Bcap=80), dict(u=2, T=4, Bcap=80), dict(u=3, T=4, Bcap=72)]
 
 
 def h1_case_id(ptype, u, klass):
@@ -176,13 +307,17 @@ def h1_calls(u):
 
 
 def run_h1(job):
-    import oqupy.util as util
     from vf import thx_replay
     ptype, u, T, Bcap, klass = job["ptype"], job["u"], job["T"], job["Bcap"], job["klass"]
-    res = _new_result(h1_case_id(ptype, u, klass), {})
+    res = _new_result(job["id"], {})
     t0 = time.time()
     try:
-        low = Lowered(util, PTYPES[ptype])
+        if job["kind"] == "S":
+            util = sys.modules[__name__]
+            low = Lowered(util, job["cls"])
+        else:
+            import oqupy.util as util
+            low = Lowered(util, PTYPES[ptype])
         top = thx.toplevel_calls([("enter", ())] + [("update", (thx.OTHER,))] * u + [("exit", ())])
         main, cbs, finit, attrs = low.programs(top)
         for nm in ("__enter__", "__exit__", "_print_status"):
@@ -235,11 +370,12 @@ def run_h1(job):
             res["inconclusive"].append({"label": q["label"], "why": "solver unknown/timeout"})
         if r == "sat":
             sched, final = bm.schedule(m)
-            rr = thx_replay.replay_schedule(util, low.cls, attrs, list(low.ci.locks), h1_calls(u), sched)
+            rr = thx_replay.replay_schedule(util, low.cls, attrs, list(low.ci.locks), h1_calls(u), sched, event_attrs=list(low.ci.events))
             res["replays"] += 1
             info = {"model_final": final, "replay": {k: rr[k] for k in ("leaked", "threads", "bytes_after_exit", "rearmed", "desync", "thread_exceptions")},
                     "schedule": ["%s:%s" % (x["thread"], x["op"]) for x in sched]}
-            values = {"kind": "H1", "ptype": ptype, "u": u, "schedule": sched, "attrs": attrs, "locks": list(low.ci.locks)}
+            values = {"kind": "H1", "ptype": ptype, "u": u, "schedule": sched, "attrs": attrs, "locks": list(low.ci.locks),
+                      "events": list(low.ci.events), "cls": low.clsname, "selftest": job["kind"] == "S"}
             if rr["leaked"] and not rr["desync"]:
                 q["replayed"] = True
                 res["violations"].append({"label": q["label"], "key": "%s/H1/%s/%s" % (PROP, ptype, H1_KEYS[klass]), "magnitude": float(len(rr["leaked"])),
@@ -256,6 +392,17 @@ def run_h1(job):
         res["errors"].append("lowering: %s" % e)
     except Exception as e:  # noqa
         res["errors"].append("%s: %s\n%s" % (type(e).__name__, e, traceback.format_exc()[-1500:]))
+    if job["kind"] == "S":
+        # self-test: not a statement about /repo; the expectation must be met, otherwise the machinery is broken
+        got = res["queries"][-1]["result"] if res["queries"] else "none"
+        ok = got == job["expect"] and (got != "sat" or bool(res["violations"])) and not res["inconclusive"]
+        if not ok:
+            res["errors"].append("self-test %s: expected %s%s, got %s (replayed violations %d, inconclusive %d)"
+                                 % (job["id"], job["expect"], " with a replaying schedule" if job["expect"] == "sat" else "", got,
+                                    len(res["violations"]), len(res["inconclusive"])))
+        res["samples"].append({"case": job["id"], "selftest": job["cls"], "expected": job["expect"], "got": got, "ok": ok})
+        res["violations"] = []
+        res["inconclusive"] = [] if ok else res["inconclusive"]
     res["wall_s"] = round(time.time() - t0, 2)
     return res
 
@@ -349,7 +496,23 @@ def run_h2(job):
                          {"twin": "an injected fault escapes the function after the progress object was entered", "result": r2}]
         if r1 != "sat" or r2 != "sat":
             res["errors"].append("reachability twin not sat (%s/%s)" % (r1, r2))
+        # validation of the AST lowering against the implementation: the call sequence of a real fault-free run
+        # must be a path of the lowered control-flow graph (lowered once more with real loops)
         dry = None
+        driver = thx_replay.DRIVERS.get(qual)
+        if driver is not None:
+            dry = thx_replay.run_api(driver, fn, "record", None, "silent")
+            if dry["exception"]:
+                res["errors"].append("replay driver for %s fails without fault: %s" % (qual, dry["exception"]))
+            else:
+                mloop = thx.lower_ast_api(fn, util, target, unroll=None, enter_returns_self=ers)
+                ok, nm, nig = thx.accepts(mloop, dry["seq"])
+                res["bounds"]["real_run_calls_matched"] = nm
+                if ok:
+                    res["validated"] += 1
+                else:
+                    res["errors"].append("AST lowering of %s does not accept the call sequence of a real run (matched %d of %d calls, %d ignored)"
+                                         % (qual, nm, len(dry["seq"]), nig))
         for klass in ("fault", "nofault"):
             side = [bm.any_violation(True)] if klass == "fault" else [bm.any_violation(False), bm.fk == bm.NOFAULT]
             label = "no WAITING timer after the call has %s" % ("raised (fault index symbolic over %d sites)" % len(mir.sites) if klass == "fault" else "returned")
@@ -364,9 +527,8 @@ def run_h2(job):
             if r != "sat":
                 res["samples"].append({"case": cid, "verdict": r, "query": label, "fault_sites": len(mir.sites), "B": B})
                 continue
-            driver = thx_replay.DRIVERS.get(qual)
-            if driver is None:
-                res["inconclusive"].append({"label": label, "why": "no replay driver for %s" % qual})
+            if driver is None or dry is None or dry["exception"]:
+                res["inconclusive"].append({"label": label, "why": "no working replay driver for %s" % qual})
                 continue
             key = "%s/%s/%s" % (PROP, cid, "no-finally" if klass == "fault" else "exit-skipped-on-normal-path")
             if klass == "nofault":
@@ -392,11 +554,6 @@ def run_h2(job):
                                                 "reproduced by the replay driver's argument variants", "info": info})
                 continue
             # fault class: prefer a site underneath which a user callable runs (dry run with progress 'silent')
-            if dry is None:
-                dry = thx_replay.run_api(driver, fn, "record", None, "silent")
-                if dry["exception"]:
-                    res["errors"].append("replay driver for %s fails without fault: %s" % (qual, dry["exception"]))
-                    continue
             by_id = {x.id: x for x in mir.sites}
 
             def skey(site):
@@ -462,7 +619,7 @@ def run_h2(job):
 # driver
 # ---------------------------------------------------------------------------------------
 def jobs_for(tier):
-    tmo = 150 if tier == "quick" else 900
+    tmo = 150 if tier == "quick" else 1500
     jobs = []
     for ptype in ("bar", "simple", "silent"):
         for b in h1_bounds(tier, ptype):
@@ -470,8 +627,15 @@ def jobs_for(tier):
                 jobs.append(dict(kind="H1", ptype=ptype, klass=klass, timeout_s=tmo, **b))
     for qual, t, n in discover():
         jobs.append(dict(kind="H2", api=qual, target=t, nprog=n, timeout_s=tmo))
+    for name, cls, expect in SELFTESTS:
+        jobs.append(dict(kind="S", ptype="bar", klass="any", cls=cls, expect=expect, u=1, T=3, Bcap=48, timeout_s=tmo, selftest=name))
     for j in jobs:
-        j["id"] = h1_case_id(j["ptype"], j["u"], j["klass"]) if j["kind"] == "H1" else h2_case_id(j["api"], j["target"], j["nprog"])
+        if j["kind"] == "H1":
+            j["id"] = h1_case_id(j["ptype"], j["u"], j["klass"])
+        elif j["kind"] == "S":
+            j["id"] = "selftest/%s" % j["selftest"]
+        else:
+            j["id"] = h2_case_id(j["api"], j["target"], j["nprog"])
     return jobs
 
 
@@ -479,7 +643,7 @@ def _run_job(job):
     warnings.simplefilter("ignore")
     if os.environ.get("VF_VERBOSE"):
         print("[start] %s" % job["id"], file=sys.stderr, flush=True)
-    r = run_h1(job) if job["kind"] == "H1" else run_h2(job)
+    r = run_h1(job) if job["kind"] in ("H1", "S") else run_h2(job)
     if os.environ.get("VF_VERBOSE"):
         print("[done ] %s %.1fs %s viol=%d err=%d inc=%d" % (job["id"], r.get("wall_s", 0), [q["result"] for q in r["queries"]],
               len(r["violations"]), len(r["errors"]), len(r["inconclusive"])), file=sys.stderr, flush=True)
@@ -514,11 +678,12 @@ def main(tier, seed, args):
     cov = ev["coverage"]
     cov["states"] = int(sum(r["states"] for r in results))
     cov["transitions"] = int(sum(r["transitions"] for r in results))
-    cov["traces_validated_against_impl"] = int(sum(r["replays"] for r in results))
+    cov["traces_validated_against_impl"] = int(sum(r["replays"] + r["validated"] for r in results))
     cov["lowering_traces_cross_checked"] = int(sum(r["lowering_traces"] for r in results))
     cov["explanation"] = ("states = symbolic state vectors of all unrolled systems (sum over queries of B+1); transitions = guarded-command "
                           "instances in the unrollings (one per event instruction / timer firing per thread per step); "
-                          "traces_validated_against_impl = solver models replayed on the real code with real threads; "
+                          "traces_validated_against_impl = solver models replayed on the real code with real threads + real fault-free runs of each API whose "
+                          "executed call sequence (sys.monitoring) was checked to be a path of the lowered control-flow graph; "
                           "lowering_traces_cross_checked = event traces of the progress methods on which the bytecode lowering and the "
                           "independent AST lowering were compared")
     samples = [s for r in results for s in r["samples"]]
@@ -544,8 +709,9 @@ class ReplayCase(Case):
         from vf import thx_replay
         v = inp.values
         if v.get("kind") == "H1":
-            cls = getattr(util, PTYPES[v["ptype"]])
-            rr = thx_replay.replay_schedule(util, cls, v["attrs"], v["locks"], h1_calls(int(v["u"])), v["schedule"])
+            mod = sys.modules[__name__] if v.get("selftest") else util
+            cls = getattr(mod, v.get("cls") or PTYPES[v["ptype"]])
+            rr = thx_replay.replay_schedule(mod, cls, v["attrs"], v["locks"], h1_calls(int(v["u"])), v["schedule"], event_attrs=v.get("events", ()))
             print("replay: leaked timers %s threads %s desync %s" % (rr["leaked"], rr["threads"], rr["desync"]))
             return [Ob.holds("no timer survives the schedule", not rr["leaked"])]
         fn = dict(thx.discover_apis(oqupy))[v["api"]]
